@@ -151,3 +151,36 @@ def reset_constraint_caches(spec: Any) -> None:
 
     for c in spec.constraints:
         walk(c)
+
+
+class NoCache(dict):
+    """a Constraint.cache that never remembers anything"""
+
+    def __setitem__(self, k: Any, v: Any) -> None:
+        return None
+
+    def __contains__(self, k: Any) -> bool:
+        return False
+
+
+def disable_constraint_caches(spec: Any) -> None:
+    """Replace every Constraint.cache reachable from the spec by a NoCache: evaluation on this spec is
+    then what the constraints compute from scratch, with no memo at any level."""
+    seen: set = set()
+
+    def walk(c: Any) -> None:
+        if id(c) in seen:
+            return
+        seen.add(id(c))
+        if hasattr(c, "cache") and isinstance(getattr(c, "cache"), dict):
+            c.cache = NoCache()
+        for v in list(getattr(c, "__dict__", {}).values()):
+            if hasattr(v, "fitness") and hasattr(v, "format_as_spec"):
+                walk(v)
+            elif isinstance(v, (list, tuple)):
+                for x in v:
+                    if hasattr(x, "fitness") and hasattr(x, "format_as_spec"):
+                        walk(x)
+
+    for c in spec.constraints:
+        walk(c)
